@@ -306,18 +306,56 @@ func (ex *Exec) rangeNext(fr *Frame, x *ssa.Next) Value {
 		it.pos++
 		return Agg{c.True(), e.k, e.v}
 	}
-	// string iteration: ASCII only
+	// string iteration with UTF-8 decoding as the range statement does it (invalid encodings give U+FFFD, width 1)
 	n := ex.concretize(it.s.len, 4096, "range over string")
 	if uint64(it.pos) >= n {
 		return Agg{c.False(), c.Const(64, 0), c.Const(32, 0)}
 	}
-	b := ex.load(ex.ptrAdd(it.s.p, it.pos), types.Typ[types.Uint8]).(*Term)
-	if !ex.require(c.Cmp("bvult", b, c.Const(8, 0x80))) {
-		panic(unsupported("range over non-ASCII string"))
+	byteAt := func(k int64) *Term {
+		return ex.load(ex.ptrAdd(it.s.p, it.pos+k), types.Typ[types.Uint8]).(*Term)
+	}
+	in := func(b *Term, lo, hi uint64) *Term {
+		return c.And(c.Not(c.Cmp("bvult", b, c.Const(8, lo))), c.Not(c.Cmp("bvult", c.Const(8, hi), b)))
+	}
+	low := func(b *Term, mask uint64, shift uint64) *Term {
+		return c.Bin("bvshl", c.ZExt(c.Bin("bvand", b, c.Const(8, mask)), 32), c.Const(32, shift))
 	}
 	i := it.pos
+	b0 := byteAt(0)
+	if ex.branch(c.Cmp("bvult", b0, c.Const(8, 0x80))) {
+		it.pos++
+		return Agg{c.True(), c.Const(64, uint64(i)), c.ZExt(b0, 32)}
+	}
+	avail := int64(n) - it.pos
+	if avail >= 2 {
+		b1 := byteAt(1)
+		if ex.branch(c.And(in(b0, 0xc2, 0xdf), in(b1, 0x80, 0xbf))) {
+			it.pos += 2
+			return Agg{c.True(), c.Const(64, uint64(i)), c.Bin("bvor", low(b0, 0x1f, 6), low(b1, 0x3f, 0))}
+		}
+		if avail >= 3 {
+			b2 := byteAt(2)
+			lead3 := c.Or(c.And(c.Eq(b0, c.Const(8, 0xe0)), in(b1, 0xa0, 0xbf)),
+				c.Or(c.And(c.Or(in(b0, 0xe1, 0xec), in(b0, 0xee, 0xef)), in(b1, 0x80, 0xbf)),
+					c.And(c.Eq(b0, c.Const(8, 0xed)), in(b1, 0x80, 0x9f))))
+			if ex.branch(c.And(lead3, in(b2, 0x80, 0xbf))) {
+				it.pos += 3
+				return Agg{c.True(), c.Const(64, uint64(i)), c.Bin("bvor", low(b0, 0x0f, 12), c.Bin("bvor", low(b1, 0x3f, 6), low(b2, 0x3f, 0)))}
+			}
+			if avail >= 4 {
+				b3 := byteAt(3)
+				lead4 := c.Or(c.And(c.Eq(b0, c.Const(8, 0xf0)), in(b1, 0x90, 0xbf)),
+					c.Or(c.And(in(b0, 0xf1, 0xf3), in(b1, 0x80, 0xbf)),
+						c.And(c.Eq(b0, c.Const(8, 0xf4)), in(b1, 0x80, 0x8f))))
+				if ex.branch(c.And(lead4, c.And(in(b2, 0x80, 0xbf), in(b3, 0x80, 0xbf)))) {
+					it.pos += 4
+					return Agg{c.True(), c.Const(64, uint64(i)), c.Bin("bvor", low(b0, 0x07, 18), c.Bin("bvor", low(b1, 0x3f, 12), c.Bin("bvor", low(b2, 0x3f, 6), low(b3, 0x3f, 0))))}
+				}
+			}
+		}
+	}
 	it.pos++
-	return Agg{c.True(), c.Const(64, uint64(i)), c.ZExt(b, 32)}
+	return Agg{c.True(), c.Const(64, uint64(i)), c.Const(32, 0xfffd)}
 }
 
 // ---------- bodyless functions ----------
